@@ -65,7 +65,7 @@ CHECKS = {
         cat="exploration", ref="4 C12",
         technique="model-based stateful property testing (update histories vs a set model) + exhaustive enumeration of short histories",
         text="Generated histories of up to 200/600 operations over 4-8 labels (usize and String) with arbitrary operands, full observable-state comparison with a set model after every step, Result vs precondition, id uniqueness/stability/no reuse; plus every 4-step (quick) / 5-step (thorough) history over two labels. 20% of the histories run over 20-120 labels with hub bias (long adjacency lists, ids in the hundreds). A quarter of the histories use a label type whose Hash is coarser than its Eq (colliding labels). The fixed case list has one framework object living through 44 000 rounds of churn (2^16 removed attacks); some histories start with hubs of 30-119 attackers or a thousand stale adjacency entries.",
-        note="trusted: the set model"),
+        note="trusted: the set model; label types: usize, String, a type with a coarse Hash, and a type whose Eq ignores part of the value (the stored representative must stay the first one inserted)"),
     "C14": dict(
         cat="exploration", ref="4 C14",
         technique="round-trip property testing with an independent tokenizer and byte-exact expected output",
